@@ -190,8 +190,32 @@ Theorem C17_remove_index_state : forall w i a r panics, pw_remove w i a r panics
 Proof. exact remove_state_independent_of_panic. Qed.
 Print Assumptions C17_remove_index_state.
 
+(** ... and that state is consistent: for EVERY world satisfying the index invariant and every identifier it
+    accepts, whatever Drop panics during [World::remove], the world the caller gets back satisfies it again
+    (swap-remove of the identifier column, the moved row's slot, the released slot). *)
+Theorem C17_remove_world : forall w i a r panics, WInv w -> nth_error (pw_slots w) i = Some (Some (a, r)) ->
+  WInv (pw_remove w i a r panics).
+Proof. exact remove_under_panic_keeps_WInv. Qed.
+Check (C17_remove_world : forall w i a r panics, WInv w -> nth_error (pw_slots w) i = Some (Some (a, r)) ->
+  WInv (pw_remove w i a r panics)).
+Print Assumptions C17_remove_world.
+
 Theorem C17_remove_released_last_before_the_repair :
   let w := pw_remove_gen false w_dst 0 0 0 true in
   nth_error (pw_slots w) 0 = Some (Some (0, 0)) /\ row_of w 0 0 = Some 2 /\ winv_b w = false.
 Proof. exact remove_released_last_dangles. Qed.
 Print Assumptions C17_remove_released_last_before_the_repair.
+
+(** [Entry::remove] under a panicking Drop: the detached component is dropped last (read off the source), so
+    the entity has its new row and its location before any user code runs; dropped earlier, a panic leaves the
+    identifier pointing at another entity's row. *)
+Theorem C17_entry_remove_index_state : forall w i a r b panics,
+  pw_entry_remove w i a r b panics = pw_entry_remove w i a r b false.
+Proof. exact entry_remove_state_independent_of_panic. Qed.
+Print Assumptions C17_entry_remove_index_state.
+
+Theorem C17_entry_remove_dropped_early :
+  let w := pw_entry_remove_gen false w_dst 0 0 0 1 true in
+  nth_error (pw_slots w) 0 = Some (Some (0, 0)) /\ row_of w 0 0 = Some 2 /\ row_of w 1 1 = Some 0 /\ winv_b w = false.
+Proof. exact entry_remove_dropped_early_dangles. Qed.
+Print Assumptions C17_entry_remove_dropped_early.
